@@ -12,12 +12,13 @@ Pow64(v) == IF v = 1 THEN 1 ELSE IF v = 2 THEN 64 ELSE 4096
 DiffMC(m, cur, upd, v) == (Ix(m) * 16 + Ix(cur) * 4 + Ix(upd)) * Pow64(v)
 
 Vec(a, b, c) == [v \in Vs |-> IF v = 1 THEN a ELSE IF v = 2 THEN b ELSE c]
-\* quick tier: two weight vectors per run, the pair is selected by the seed (checks/c20.py)
+\* quick tier: two weight vectors per run, the pair is selected by the seed (checks/c20.py).  Every pair contains a
+\* total weight divisible by 3 (the only totals for which 2T/3+1 differs from 2T/3 rounded up) and one that is not.
 WeightsQ0 == {Vec(1,1,1), Vec(2,1,1)}
-WeightsQ1 == {Vec(1,1,3), Vec(2,2,1)}
-WeightsQ2 == {Vec(3,1,1), Vec(1,3,1)}
-WeightsQ3 == {Vec(5,1,1), Vec(1,1,2)}
-WeightsT == {Vec(1,1,1), Vec(2,1,1), Vec(3,1,1), Vec(1,1,2), Vec(1,3,1), Vec(2,2,1), Vec(5,1,1)}
+WeightsQ1 == {Vec(1,1,4), Vec(2,2,1)}
+WeightsQ2 == {Vec(1,3,2), Vec(5,1,1)}
+WeightsQ3 == {Vec(2,2,2), Vec(1,1,3)}
+WeightsT == {Vec(1,1,1), Vec(2,1,1), Vec(3,1,1), Vec(1,1,2), Vec(1,3,2), Vec(2,2,1), Vec(5,1,1), Vec(1,1,4)}
 ClocksQ == {Vec(1,2,F), Vec(2,F,1), Vec(F,0,2), Vec(0,1,1)}
 ClocksT == {Vec(1,2,F), Vec(2,F,1), Vec(F,0,2), Vec(0,1,1), Vec(2,2,0), Vec(F,F,1)}
 
